@@ -441,13 +441,19 @@ fn main() {
     if std::env::var("HX_VCLOCK").is_ok() {
         // virtual timestamp counter at 10^12 Hz (use with `--timer tsc`); the precision and the
         // overheads cannot be measured on a clock that only the benchmark body advances
+        // `HX_AUTOSTEP`: every timestamp read advances the reading thread's clock by that many ticks
+        let step: u64 = std::env::var("HX_AUTOSTEP").ok().and_then(|v| v.parse().ok()).unwrap_or(0);
         divan::__verif::vclock_set(0);
-        divan::__verif::vclock_enable(1_000_000_000_000, 0);
+        divan::__verif::vclock_enable(1_000_000_000_000, step);
         let prec: u128 = std::env::var("HX_PREC").ok().and_then(|v| v.parse().ok()).unwrap_or(1);
         divan::__verif::set_precision_override(Some(prec));
         divan::__verif::log_reserve(1 << 18);
         divan::__verif::log_enable(true);
-        divan::__verif::set_overhead_override(Some([0; 4]));
+        // `HX_CALIB=1`: no overhead override, so the first benchmark of the process runs the real
+        // overhead calibration (`Timer::bench_overheads`), whose timestamp reads advance the clock
+        if std::env::var("HX_CALIB").is_err() {
+            divan::__verif::set_overhead_override(Some([0; 4]));
+        }
     }
     let start = std::env::var("HX_START").unwrap_or_else(|_| "main".to_string());
     match start.as_str() {
